@@ -232,8 +232,11 @@ fn sym_line(s: &Sym, ctr: u64, last: &Option<(u8, u8, Option<u8>)>) -> Line {
         Sym::Hdr(n, k, id) => (nmea_ref::mk(*n, *k, *id, &uniq_payload(ctr), 0), false),
         Sym::BadChecksum => {
             // a perfect *next* fragment of the last accepted-looking header, wrong checksum
-            let (n, k, id) = match last {
-                Some((n, k, id)) if *k < *n => (*n, *k + 1, *id),
+            let (n, k, id) = match (last, ctr % 3) {
+                (Some((n, k, id)), 0) if *k < *n => (*n, *k + 1, *id),
+                // an opener carrying the id of the last header seen, or no id
+                (Some((n, _, id)), 1) => ((*n).max(2), 1, *id),
+                (Some(_), _) => (2, 1, None),
                 _ => (2, 1, Some(1)),
             };
             let mut b = Build::simple(n, k, id, b"A", &uniq_payload(ctr), 0);
@@ -292,9 +295,11 @@ fn inert_line(r: &mut Rng, open: &Option<(u8, u8, Option<u8>)>, ctr: u64) -> Lin
             (b.line(), r.bool())
         }
         3 => {
-            // perfect next fragment with a wrong checksum
-            let (n, k, id) = match open {
-                Some((n, k, id)) if *k < *n => (*n, *k + 1, *id),
+            // perfect next fragment - or an opener with the same / another id - with a wrong checksum
+            let (n, k, id) = match (open, r.below(3)) {
+                (Some((n, k, id)), 0) if *k < *n => (*n, *k + 1, *id),
+                (Some((n, _, id)), 1) => (*n, 1, *id),
+                (Some((_, _, id)), _) => (2, 1, Some(id.map_or(6, |x| (x % 10 + 2) % 10))),
                 _ => (3, 1, Some(2)),
             };
             let mut b = Build::simple(n, k, id, b"A", &uniq_payload(ctr), 0);
